@@ -285,6 +285,7 @@ Definition show_case (g : list rule) (nu : nat) (trees : list tree) : string :=
   | None => "OOF"
   | Some s =>
       let n := List.length g in
+      show_nat (pass_count g) ++ "|" ++
       sjoin "" (map (fun x => show_kind (types s x)) (seq 0 nu)) ++ "|" ++
       sjoin ";" (map (fun x => sjoin "," (map show_nat (inh s x))) (seq 0 nu)) ++ "|" ++
       sjoin ";" (map (fun k => sjoin "" (map (fun r => show_ob (isinstance n (inh s) k (Some r))) (seq 0 nu))
@@ -414,6 +415,109 @@ class Gen:
         return ["alt", alts] if len(alts) > 1 else alts[0]
 
 
+def linked_cycles(r):
+    """Reference graphs made of 2-4 linked cycles of assignment-free rules: cycle 0 has one exit to a
+    common rule, cycle i > 0 one exit into cycle i-1, every other exit is a match rule or a keyword.
+    Edges inside a cycle are keyword-guarded (no left recursion) and are back edges for whichever
+    member is defined first; definition order and alternative order are random, so a rule's kind may
+    only become known after several passes of the kind fixpoint (stale reads of rules that are still
+    being resolved)."""
+    kwn = [0]
+
+    def k():
+        kwn[0] += 1
+        return ["t", kw(kwn[0] * 7 + 3)]
+    d = r.range(2, 4)
+    rules, cycles = [], []
+    commons = ["K1"] + (["K2"] if r.chance(0.4) else [])
+    matches = ["Mm1"] + (["Mm2"] if r.chance(0.5) else [])
+    n = 0
+    for i in range(d):
+        size = r.weighted([(1, 1), (2, 5), (3, 2)]) if i else r.weighted([(2, 5), (3, 2)])
+        members = []
+        for _ in range(size):
+            n += 1
+            members.append("X%d" % n)
+        cycles.append(members)
+    bodies = {}
+    for i, members in enumerate(cycles):
+        exit_at = r.below(len(members))
+        for j, m in enumerate(members):
+            nxt = members[(j + 1) % len(members)]
+            edge = ["seq", [k(), ["r", nxt]] + ([k()] if r.chance(0.5) else [])]
+            if j == exit_at:
+                if i == 0:
+                    ex = ["r", r.choice(commons)]
+                else:
+                    tgt = r.choice(cycles[i - 1])
+                    ex = ["r", tgt] if r.chance(0.3) else ["seq", [k(), ["r", tgt]] + ([k()] if r.chance(0.5) else [])]
+            else:
+                ex = r.weighted([(["r", r.choice(matches)], 3), (k(), 1), (["seq", [k(), ["r", r.choice(matches)]]], 1)])
+            alts = [edge, ex]
+            if r.chance(0.25):
+                alts.append(r.weighted([(["seq", [k(), ["r", r.choice(matches)]]], 2), (["r", r.choice(commons)], 1)]))
+            bodies[m] = ["alt", r.shuffle(alts) if r.chance(0.5) else alts]
+    order = r.shuffle([m for c in cycles for m in c])
+    top = r.choice(cycles[-1])
+    body = [["asg", "xs", "+=", top]]
+    if r.chance(0.6):
+        body += [["t", "also"], ["asg", "ys", "+=", r.choice(order)]]
+    rules.append({"name": "Model", "body": ["seq", body]})
+    extra = [{"name": c, "body": ["seq", [k(), ["asg", "v", "=", "INT"]]]} for c in commons]
+    extra += [{"name": m, "body": r.choice([["seq", [k(), k()]], ["seq", [k(), ["r", "INT"]]], k()])} for m in matches]
+    rest = [{"name": m, "body": bodies[m]} for m in order]
+    if r.chance(0.5):
+        rules += rest + extra
+    else:
+        rules += r.shuffle(rest + extra)
+    return {"rules": rules}
+
+
+def nested_back_edges(r):
+    """A tree of assignment-free rules whose edges go both ways (child <-> parent, all keyword-guarded):
+    only the root has an exit to a common rule, so every other rule is abstract only through its
+    parent, which is still being resolved when the child reads it.  With the child edges tried first
+    and the rules defined from the root down, each tree level costs one more pass of the kind
+    fixpoint; alternative order, definition order, fillers and cross edges are randomised."""
+    kwn = [0]
+
+    def k():
+        kwn[0] += 1
+        return ["t", kw(kwn[0] * 7 + 3)]
+
+    def guarded(x):
+        return ["seq", [k(), ["r", x]] + ([k()] if r.chance(0.4) else [])]
+    n = r.range(3, 7)
+    names = ["X%d" % (i + 1) for i in range(n)]
+    parent = {}
+    for i in range(1, n):
+        parent[names[i]] = names[i - 1] if r.chance(0.65) else names[r.below(i)]
+    kids = {x: [c for c in names if parent.get(c) == x] for x in names}
+    commons = ["K1"] + (["K2"] if r.chance(0.3) else [])
+    matches = ["Mm1"] + (["Mm2"] if r.chance(0.4) else [])
+    bodies = {}
+    for x in names:
+        down = [guarded(c) for c in kids[x]]
+        up = [guarded(parent[x])] if x in parent else [["r", r.choice(commons)] if r.chance(0.7) else ["seq", [k(), ["r", r.choice(commons)]]]]
+        fill = []
+        if r.chance(0.5) or (not down and x in parent):
+            fill.append(r.weighted([(["r", r.choice(matches)], 3), (["seq", [k(), ["r", r.choice(matches)]]], 1), (k(), 1)]))
+        if r.chance(0.12):
+            fill.append(guarded(r.choice(names)))          # a cross edge
+        alts = down + up + fill if r.chance(0.7) else r.shuffle(down + up + fill)
+        bodies[x] = ["alt", alts] if len(alts) > 1 else ["seq", [alts[0], k()]] if alts[0][0] == "r" else alts[0]
+    order = names if r.chance(0.6) else r.shuffle(names)
+    body = [["asg", "xs", "+=", r.choice(names)]]
+    if r.chance(0.6):
+        body += [["t", "also"], ["asg", "ys", "+=", names[-1]]]
+    rules = [{"name": "Model", "body": ["seq", body]}]
+    extra = [{"name": c, "body": ["seq", [k(), ["asg", "v", "=", "INT"]]]} for c in commons]
+    extra += [{"name": m, "body": r.choice([["seq", [k(), k()]], ["seq", [k(), ["r", "INT"]]], k()])} for m in matches]
+    rest = [{"name": m, "body": bodies[m]} for m in order]
+    rules += (rest + extra) if r.chance(0.6) else r.shuffle(rest + extra)
+    return {"rules": rules}
+
+
 def derive(g, r, maxdepth=3):
     """a token list derived from the grammar (the PEG may still parse it differently or reject it)"""
     rules = {x["name"]: x for x in g["rules"]}
@@ -524,8 +628,33 @@ def enum_cases():
     return out
 
 
+def enum_cycles():
+    """thorough: every grammar with three assignment-free rules R1..R3, each `a | b` with
+    a in {Rj (j <> i), 'k' Rj} and b in {'j' Rj, C}, at least one exit to the common rule C: all small
+    multi-cycle reference graphs with back edges in every definition / alternative order (kinds that
+    need up to four passes).  No inputs."""
+    rs = ["R1", "R2", "R3"]
+    second = [["seq", [["t", "j"], ["r", x]]] for x in rs] + [["r", "C"]]
+
+    def bodies_of(me):
+        first = [["r", x] for x in rs if x != me] + [["seq", [["t", "k"], ["r", x]]] for x in rs]
+        return [["alt", [a, b]] for a in first for b in second]
+    out = []
+    for i, b1 in enumerate(bodies_of("R1")):
+        for j, b2 in enumerate(bodies_of("R2")):
+            for l, b3 in enumerate(bodies_of("R3")):
+                if not any(b[1][1] == ["r", "C"] for b in (b1, b2, b3)):
+                    continue
+                g = {"rules": [{"name": "Model", "body": ["seq", [["asg", "xs", "+=", "R1"]]]},
+                               {"name": "R1", "body": b1}, {"name": "R2", "body": b2}, {"name": "R3", "body": b3},
+                               {"name": "C", "body": ["seq", [["t", "c"], ["asg", "v", "=", "INT"]]]},
+                               {"name": "M", "body": ["seq", [["t", "m"], ["t", "n"]]]}]}
+                out.append({"g": g, "inputs": [], "origin": "enum3:%d:%d:%d" % (i, j, l)})
+    return out
+
+
 def make_case(r, i):
-    g = Gen(r).grammar()
+    g = linked_cycles(r) if i % 8 == 3 else nested_back_edges(r) if i % 4 == 1 else Gen(r).grammar()
     inputs = []
     for j in range(3):
         t = derive(g, r.split("in%d" % j))
@@ -606,9 +735,12 @@ def check_case(chk, c, failures, disagreements):
         back = {v: k for k, v in idx.items()}
         runs_ok = [run for run in o["runs"] if not run["error"]]
         i_vals = "@".join(run["dump"] for run in runs_ok)
-        m_vals = re.sub(r"#(\d+)\(", lambda m: back[int(m.group(1))] + "(", mv.split("|", 3)[3]) if mv.count("|") >= 3 else mv
-        impl_s = "|".join([i_k, i_inh, i_is, i_vals])
-        model_s = "|".join(mv.split("|", 3)[:3] + [m_vals]) if mv.count("|") >= 3 else mv
+        m_vals = re.sub(r"#(\d+)\(", lambda m: back[int(m.group(1))] + "(", mv.split("|", 4)[4]) if mv.count("|") >= 4 else mv
+        impl_s = "|".join([str(o.get("passes")), i_k, i_inh, i_is, i_vals])
+        model_s = "|".join(mv.split("|", 4)[:4] + [m_vals]) if mv.count("|") >= 4 else mv
+        if mv.count("|") >= 4:
+            np_ = mv.split("|", 1)[0]
+            chk.stat("grammars resolved in %s passes" % (np_ if np_ in ("1", "2", "3") else ">=4"))
         chk.cov["disagreements_checked"] += 1
         if impl_s != model_s:
             disagreements.append({"case": brief, "impl": impl_s, "model": model_s})
@@ -677,21 +809,23 @@ def check_case(chk, c, failures, disagreements):
 
 def run(chk):
     chk.prove([])
-    n = 900 if chk.thorough else 160
+    n = 600 if chk.thorough else 160
     cases = []
     for c in load_corpus():
         cases.append({"g": c["grammar"], "inputs": c["inputs"], "origin": c["origin"]})
     for i in range(n):
         cases.append(make_case(chk.rng.split(i), i))
     if chk.thorough:
-        cases += enum_cases()
+        cases += enum_cases() + enum_cycles()
     failures, disagreements = evaluate(chk, cases)
     chk.cov["rule"] = ("generated grammars: a common root with list attributes over 3-7 rules drawn as common (keyword + INT / contained "
                        "references / lists), match (keywords, base types, references to match rules, aliases) and assignment-free rules whose "
                        "1-3 alternatives mix bare references, keywords, optional / repeated / nested-choice references in any order, so that "
                        "chains, aliases and cycles of abstract rules occur (back references only after a consumed token: no left recursion); "
+                       "1/4 of the grammars are trees of assignment-free rules with guarded edges in both directions and one exit to a common "
+                       "rule, 1/8 are 2-4 linked cycles, so that kinds need 3-7 passes of the fixpoint (see distribution); "
                        "up to 3 inputs derived from each grammar; observed: _tx_type, _tx_inh_by, textx_isinstance for every (rule, rule) pair, "
-                       "type names and canonical dump of every loaded model, the captured parse tree; non-trivial = the grammar has at least "
+                       "the number of passes of the kind fixpoint, type names and canonical dump of every loaded model, the captured parse tree; non-trivial = the grammar has at least "
                        "one abstract rule; distinct by grammar text")
     chk.assumptions += ["Model/Kinds.v transcribes _determine_rule_types, _textx_isinstance and the abstract/match/common branch of "
                         "process_node by hand; validated by the correspondence on every case",
